@@ -180,6 +180,10 @@ def parseObs (j : Json) : R (StartObs V) := do
   return { name := ← fldStr j "name", persistent := ← fldBool j "persistent", given := ← fldBool j "given",
            init := ← fldStr j "init", actual := ← fldStr j "actual" }
 
+def parseReloadObs (j : Json) : R (ReloadObs V) := do
+  return { name := ← fldStr j "name", persistent := ← fldBool j "persistent", hasWrite := ← fldBool j "hasWrite",
+           before := ← fldStr j "before", held := ← fldStrs j "held", actual := ← fldStr j "actual" }
+
 def handle (j : Json) : R Json := do
   let k ← fldStr j "k"
   match k with
@@ -216,6 +220,13 @@ def handle (j : Json) : R Json := do
     let file ← optHex (← fld j "file")
     let obs ← (← fldArr j "obs").mapM parseObs
     return Json.mkObj [("bad", jstrs (judgeStart env.parse env.imp file obs))]
+  | "judge_reload" =>
+    -- one call of loadParameters() in a running module: `file` = the file when it was called
+    let env := mkEnv (← parseTables (← fld j "tables"))
+    let file ← optHex (← fld j "file")
+    let obs ← (← fldArr j "obs").mapM parseReloadObs
+    return Json.mkObj [("restores", jstrs (judgeReloadRestores env.parse env.imp env.wval file obs)),
+                       ("thisrun", jstrs (judgeReloadFromThisRun obs))]
   | _ => throw s!"C17: unknown verb {k}"
 
 end Frappy.Drive.C17
